@@ -1,14 +1,15 @@
 (* C01 model, text layer: what happens to the characters of one text item (a property value, a label
    attribute) between the networkx GraphML writer and the networkx GraphML reader.
 
-   Pipeline in the code (fim/graph/networkx_property_graph.py:363-385, fim/graph/graph_util.py:38-66):
-     nx.generate_graphml : xml.etree tostring (us-ascii, & < > escaped, non-ASCII as decimal character
-                           references), then  str.splitlines()            -- et_escape, then
-     '\n'.join(...)      : every line boundary becomes LF                 -- splitjoin
-     lxml etree.fromstring : characters checked, references decoded       -- xml_unescape      (text_in)
-     lxml etree.tostring : & < > escaped, CR and non-ASCII as references  -- lx_escape / lx_attr_escape
+   Pipeline in the code (fim/graph/networkx_property_graph.py:363-385, fim/graph/graph_util.py:38-79,
+   after fix 10c1448):
+     GraphML.nx_generate_graphml : networkx GraphMLWriter text = xml.etree tostring (us-ascii, & < >
+                           escaped, non-ASCII as decimal character references)   -- et_escape, then
+     .replace('\r', '&#13;')     : a raw CR becomes a character reference           -- cr_ref
+     lxml etree.fromstring : characters checked, references decoded               -- xml_unescape      (text_in)
+     lxml etree.tostring : & < > escaped, CR and non-ASCII as references          -- lx_escape / lx_attr_escape
      file write / open(..,'r') / expat : end-of-line normalisation, attribute white-space
-                           normalisation, references decoded              -- (text_out, attr_out)
+                           normalisation, references decoded                      -- (text_out, attr_out)
    Python str = list N of code points (Base/Str.v).  Definitions only; proofs in Proofs/Serial1Text.v. *)
 From Coq Require Import String.
 From Coq Require Import List NArith Bool.
@@ -74,20 +75,18 @@ Definition lx_attr_escape_char (c : N) : str :=
   else if 127 <? c then char_ref c else [c].
 Definition lx_attr_escape (s : str) : str := flat_map lx_attr_escape_char s.
 
-(* ---- line ends ---- *)
-(* str.splitlines() boundaries that can occur in ASCII text, other than LF / CR / CRLF *)
-Definition is_brk (c : N) : bool := (c =? 11) || (c =? 12) || (c =? 28) || (c =? 29) || (c =? 30).
+(* str.replace('\r', '&#13;') on the written text *)
+Definition cr_ref (s : str) : str := flat_map (fun c => if c =? 13 then char_ref 13 else [c]) s.
 
-(* '\n'.join(text.splitlines()) inside a text item, which is also the XML / universal-newline
-   end-of-line normalisation on text free of VT FF FS GS RS: CR LF -> LF, CR -> LF.
-   [cr] = the previous character was a CR. *)
+(* ---- line ends ---- *)
+(* The end-of-line normalisation of the XML parser / of open(..,'r') (universal newlines) on a text item:
+   CR LF -> LF, CR -> LF.  [cr] = the previous character was a CR. *)
 Fixpoint splitjoin_from (cr : bool) (s : str) : str :=
   match s with
   | [] => []
   | c :: r =>
       if c =? 13 then 10 :: splitjoin_from true r
       else if c =? 10 then (if cr then splitjoin_from false r else 10 :: splitjoin_from false r)
-      else if is_brk c then 10 :: splitjoin_from false r
       else c :: splitjoin_from false r
   end.
 Definition splitjoin (s : str) : str := splitjoin_from false s.
@@ -132,8 +131,9 @@ Fixpoint unesc (st : option str) (s : str) : option str :=
 Definition xml_unescape (s : str) : option str := unesc None s.
 
 (* ---- the three journeys of a text item ---- *)
-(* value text written by networkx, re-joined, parsed by lxml (inside networkx_to_neo4j) *)
-Definition text_in (s : str) : option str := xml_unescape (splitjoin (et_escape s)).
+(* value text written by networkx, CR replaced, parsed by lxml (inside networkx_to_neo4j); the parser's own
+   end-of-line normalisation has no raw CR left to act on *)
+Definition text_in (s : str) : option str := xml_unescape (eol_norm (cr_ref (et_escape s))).
 (* element text written by lxml, stored / read back (universal newlines), parsed by expat *)
 Definition text_out (s : str) : option str := xml_unescape (eol_norm (lx_escape s)).
 (* attribute value written by lxml, read back *)
